@@ -319,7 +319,7 @@ var deepClasses = func() map[string]map[string]bool {
 		"CreateStakingTransaction":        "ok e1304 e1109 e1110 e1301 e1703 e1503 e1504 e1501",
 		"CreateBindingTransaction":        "ok e1304 e1109 e1110 e1301 e1703 e1503 e1504 e1501",
 		"CreatePoolPkCoinbaseTransaction": "ok e1304 e1109 e1110 e1301 e1703 e1503 e1504 e1501",
-		"GetTransactionFee":               "ok e1304 e1109 e1301 e1503",
+		"GetTransactionFee":               "ok e1304 e1109 e1301 e1503 e1501",
 		"SignRawTransaction":              "ok e1106 e1507 e1701",
 		"DecodeRawTransaction":            "ok e1102",
 		"TxHistory":                       "ok e1702",
